@@ -232,6 +232,59 @@ def _check_table(rec, idx, workdir, seed, corrupt=None):
     return probs
 
 
+def many_samples(ck, workdir):
+    """Twelve samples whose names carry numbers of different width (S1 .. S12): likelihood rows and the returned sample list
+    in sorted sample order, each row that of its own sample, for three row orders."""
+    import numpy as np
+    d = os.path.join(workdir, "many_samples")
+    os.makedirs(d, exist_ok=True)
+    names = ["S%d" % i for i in range(1, 13)]
+    rows = []
+    for mi, m in enumerate(("mutB", "mutA")):
+        for si, sn in enumerate(names):
+            rows.append({"mutation_id": m, "sample_id": sn, "ref_counts": 30 + 5 * si + mi, "alt_counts": 3 + si + 2 * mi, "major_cn": 2, "minor_cn": 1, "normal_cn": 2,
+                         "tumour_content": 0.9, "error_rate": 0.001})
+    rnd = random.Random(5)
+    base = None
+    for oi in range(3):
+        ro = list(rows)
+        if oi == 1:
+            ro.reverse()
+        elif oi == 2:
+            rnd.shuffle(ro)
+        p = os.path.join(d, "in_%d.tsv" % oi)
+        write_table(p, ro, optional=True)
+        ck.evaluations += 1
+        try:
+            data, samples = load(p)
+        except Exception as ex:  # noqa
+            ck.violation("C17|many_samples|exception:%s" % type(ex).__name__, "load_data raised %s: %s on a table with 12 samples" % (type(ex).__name__, ex), {"samples": names})
+            return
+        if [str(x) for x in samples] != sorted(names):
+            ck.violation("C17|many_samples|sample_order", "12 samples are returned as %s, sorted order is %s" % (list(samples), sorted(names)), {"samples": names})
+            return
+        if [str(dp.name) for dp in data] != ["mutA", "mutB"]:
+            ck.violation("C17|many_samples|kept_set", "loaded mutations %s" % [dp.name for dp in data], {"samples": names})
+            return
+        for dp in data:
+            mi = 0 if dp.name == "mutB" else 1
+            for pos, sn in enumerate(sorted(names)):
+                si = names.index(sn)
+                row = {"mutation_id": dp.name, "sample_id": sn, "ref_counts": 30 + 5 * si + mi, "alt_counts": 3 + si + 2 * mi, "major_cn": 2, "minor_cn": 1, "normal_cn": 2,
+                       "tumour_content": 0.9, "error_rate": 0.001}
+                ref = reference_row(row, d, optional=True)
+                if not np.allclose(dp.value[pos], ref, rtol=0, atol=1e-12):
+                    ck.violation("C17|many_samples|row_value", "likelihood row %d of %s is not that of sample %s (sorted position %d of 12 samples)" % (pos, dp.name, sn, pos), {"samples": names})
+                    return
+        cur = [(str(dp.name), dp.value.tobytes()) for dp in data]
+        if base is None:
+            base = cur
+        elif cur != base:
+            ck.violation("C17|many_samples|order_dependent", "12-sample table: loaded data differ between row orders", {"samples": names})
+            return
+    ck.nontrivial("many_samples")
+
+
 def run(corrupt=None):
     ck = Check("C17")
     env.use_repo()
@@ -280,6 +333,7 @@ def run(corrupt=None):
         pass
     except Exception as ex:
         ck.violation("C17|cn_validation", "major < minor raised %s instead of MajorCopyNumberError" % type(ex).__name__, {"row": row})
+    many_samples(ck, workdir)
     # cluster table + option resolution (LossProb.tla): the loaded data must not depend on the row order of either file
     lossprob.bind(ck, "C17", 96 if thorough else 36, (0, 1, 2, 3, 4, 5) if thorough else (0, 1, 2, 3), ck.seed, want_spec=True, want_order=True)
     shutil.rmtree(workdir, ignore_errors=True)
